@@ -235,8 +235,8 @@ class Ctx:
                 "samples": self.samples or [{"obligations": self.obligations[:5]}],
                 "traces_validated_against_impl": self.evaluations,
                 "correspondence_streams": self.streams,
-                "input_distribution": dict(self.dist.most_common(40)),
-                "outcome_distribution": dict(self.keys.most_common(40)),
+                "input_distribution": dict(self.dist.most_common(200)),
+                "outcome_distribution": dict(self.keys.most_common(200)),
                 "known_findings_hit": [k["id"] for k in self.known_hits],
                 "broken_obligations": [{"kind": b["kind"], "names": b["names"]} for b in self.broken],
                 "faults_fired": self.faults_fired,
